@@ -254,6 +254,10 @@ def _worker_loop(
                         #   (1) to save future `next(...)` calls, and
                         #   (2) to avoid sending multiple `_IterableDatasetStopIteration`s.
                         iteration_end = True
+                        # Record the exhaustion in the fetcher too (without auto-collation fetch()
+                        # never sets it), so that the state sent below says so and a resumed worker
+                        # does not touch the exhausted iterator again.
+                        fetcher.ended = True  # type: ignore[union-attr]
                     if snapshot or iteration_end:
                         # Generate incremental diff from prev_state_dict and current_state_dict
                         state_dict = _make_state_dict(worker_id, dataset_kind, fetcher, dataset)
